@@ -340,6 +340,7 @@ def rule_eat_blanks(ctx):
         want = ("br_open->GetNext", "br_open->GetNextNc") if "after_open" in opt else ("pc->GetPrev(",)
         r.check(bool(defs) and all(d.startswith(want) for d in defs), "%s/adjacent-to-brace" % opt, db.loc(f, n), "the chunk `%s` is defined by %s" % (recv, defs))
     ci = db.fn("can_increase_nl")
+    r.names(ci, "nl", "prev", "next")
     for opt in sites:
         rets = [n for n in ci.all_nodes() if n["k"] == "ret" and expr_str(ci, n["i"]) == "return false" and ("options::%s()" % opt, True) in _conds(ci, n)]
         r.check(len(rets) >= 1, "can_increase_nl/vetoes-under-%s" % opt, db.loc(ci, ci.l0), "can_increase_nl no longer returns false under %s" % opt)
